@@ -38,7 +38,8 @@ inductive AccV
   | acct (key group authority : Nat) (flags : Nat)
   | bank (key group liquidityVault : Nat) (tag : Int) (flags : Nat) (weightInitZero : Bool) (emissionsMint : Nat := 0)
   | other (key : Nat)
-  | acctR (key : Nat) (flags : Nat) (record : Nat)      -- a margin account as the receivership instructions read it: flags + the key of its liquidation record
+  | acctR (key : Nat) (flags : Nat) (record : Nat) (group : Nat := 0)   -- a margin account as the receivership instructions read it: flags, the key of its liquidation record, its group
+  | groupR (key riskAdmin : Nat)                         -- a group as the deleverage instructions read it: the risk admin it names
   | record (key receiver : Nat)                          -- a liquidation record: the receiver it names
   | feeState (key wallet : Nat)                          -- the fee state: the global fee wallet it names
   deriving DecidableEq, Repr
@@ -48,7 +49,8 @@ def AccV.key : AccV → Nat
   | .acct k _ _ _ => k
   | .bank k _ _ _ _ _ _ => k
   | .other k => k
-  | .acctR k _ _ => k
+  | .acctR k _ _ _ => k
+  | .groupR k _ => k
   | .record k _ => k
   | .feeState k _ => k
 
@@ -68,7 +70,7 @@ def flBit (f : Fl) : Option Int :=
 def flagsOf : AccV → Option Nat
   | .acct _ _ _ fl => some fl
   | .bank _ _ _ _ fl _ _ => some fl
-  | .acctR _ fl _ => some fl
+  | .acctR _ fl _ _ => some fl
   | _ => none
 
 def tagIs (k : TagK) (t : Int) : Bool :=
@@ -90,7 +92,9 @@ def evalChk (env : Env) : Chk → Option Bool
     | some (.bank _ g _ _ _ _ _), some (.group k _ _) => some (g == k)
     | some (.bank _ _ v _ _ _ em), some (.other k) =>
       if target = .f_liquidity_vault then some (v == k) else if target = .f_emissions_mint then some (em == k) else none
-    | some (.acctR _ _ r), some (.record k _) => some (r == k)
+    | some (.acctR _ _ r _), some (.record k _) => some (r == k)
+    | some (.acctR _ _ _ g), some (.groupR k _) => some (g == k)
+    | some (.groupR _ ra), some (.other k) => if target = .f_risk_admin then some (ra == k) else none
     | some (.record _ recv), some (.other k) => if target = .f_liquidation_receiver then some (recv == k) else none
     | some (.feeState _ w), some (.other k) => if target = .f_global_fee_wallet then some (w == k) else none
     | _, _ => none
@@ -118,6 +122,10 @@ def evalChk (env : Env) : Chk → Option Bool
     | .zeroWeightRecv a b =>
       match env a, env b with
       | some (.acct _ _ _ fl), some (.bank _ _ _ _ _ wz _) => some (!(hasFlag fl ACCOUNT_IN_RECEIVERSHIP && wz))
+      | _, _ => none
+    | .receiverIs r who =>
+      match env r, env who with
+      | some (.record _ recv), some (.other k) => some (recv == k)
       | _, _ => none
     | _ => none
 
@@ -686,6 +694,15 @@ def RCtx.portfolio (c : RCtx) : Res (List Risk.Pos) :=
     | none => .error (.err E.InvalidBankAccount)
     | some rb => .ok { bank := rb.r, a := s.a, l := s.l, feed := rb.feed }
 
+/-- the accounts of `start_deleverage` / `end_deleverage`: the group passed is the world's; `receiver` is the signer passed
+    as `risk_admin` -/
+def RCtx.envD (c : RCtx) : Env := fun f =>
+  if f = .f_marginfi_account then some (.acctR c.a.key c.a.flags 1 c.a.group)
+  else if f = .f_liquidation_record then some (.record (if c.recordOk then 1 else 2) c.a.recReceiver)
+  else if f = .f_group then some (.groupR c.g.key c.g.riskAdmin)
+  else if f = .f_risk_admin then some (.other c.receiver)
+  else none
+
 structure StartLiqOut where
   flags : Nat
   receiver : Nat
@@ -711,6 +728,23 @@ def endLiquidation (c : RCtx) (stackHeight : Nat) : Res EndLiqOut := do
   let ps ← c.portfolio
   let (seized, repaid) ← Risk.endLiquidation c.a.recCache ps c.feeMax
   .ok { flags := c.a.flags &&& (Nat.xor ACCOUNT_IN_RECEIVERSHIP.toNat (2 ^ 64 - 1)), seized, repaid }
+
+/-- `start_deleverage` (risk admin only): no health condition (`ignore_healthy`), the same snapshot and marker plus the
+    deleverage marker; the receiver recorded is the risk admin -/
+def startDeleverage (c : RCtx) (shape : Res Unit) : Res StartLiqOut := do
+  runChecks c.envD (checks .StartDeleverage)
+  let ps ← c.portfolio
+  let cache ← Risk.startReceivership ps true
+  shape
+  .ok { flags := (c.a.flags ||| ACCOUNT_IN_DELEVERAGE.toNat) ||| ACCOUNT_IN_RECEIVERSHIP.toNat, receiver := c.receiver, cache }
+
+/-- `end_deleverage`: only "maintenance health not worse"; both markers are cleared -/
+def endDeleverage (c : RCtx) (stackHeight : Nat) : Res EndLiqOut := do
+  runChecks c.envD (checks .EndDeleverage)
+  Bank.chk (stackHeight == 1) E.NotAllowedInCPI
+  let ps ← c.portfolio
+  let (seized, repaid) ← Risk.endDeleverage c.a.recCache ps
+  .ok { flags := (c.a.flags &&& (Nat.xor ACCOUNT_IN_DELEVERAGE.toNat (2 ^ 64 - 1))) &&& (Nat.xor ACCOUNT_IN_RECEIVERSHIP.toNat (2 ^ 64 - 1)), seized, repaid }
 
 /-! ### the protocol as a state machine over whole instructions
 
